@@ -338,6 +338,8 @@ class BosonicBackend(BaseBosonic):
 
     def reset(self, pure=True, **kwargs):
         self.circuit.reset(num_subsystems=self._init_modes, num_weights=1)
+        # a new dictionary: results already handed out keep the samples of their own run
+        self.ancillae_samples_dict = {}
 
     def prepare_thermal_state(self, nbar, mode):
         self.circuit.init_thermal(nbar, mode)
